@@ -62,13 +62,79 @@ def local_names(fn):
   return names
 
 
+def returned_names(fn):
+  """['weights'] / ['bias', 'heights'] when every return of fn returns the
+  same name (tuple of names), else None"""
+  shapes = set()
+  for n in ast.walk(fn):
+    if isinstance(n, ast.Return):
+      v = n.value
+      if isinstance(v, ast.Name):
+        shapes.add((v.id,))
+      elif isinstance(v, ast.Tuple) and v.elts and all(
+          isinstance(e, ast.Name) for e in v.elts):
+        shapes.add(tuple(e.id for e in v.elts))
+      else:
+        return None
+  if len(shapes) != 1:
+    return None
+  names = list(shapes.pop())
+  return names if len(set(names)) == len(names) else None
+
+
 def make_inventory(trees):
-  """{module: {qualname: sorted local names}}"""
+  """{module: {qualname: {'locals': sorted local names, 'returns': names
+  returned by every return statement or None}}}"""
   inv = {}
   for mod, tree in sorted(trees.items()):
-    inv[mod] = {q: sorted(local_names(f))
+    inv[mod] = {q: {'locals': sorted(local_names(f)),
+                    'returns': returned_names(f)}
                 for q, (f, _, _) in function_table(tree).items()}
   return inv
+
+
+def name_returns(fn, names):
+  """the reference returns `names`; `return E` becomes `name = E; return
+  name` (element-wise for tuples when no element reads a name assigned by an
+  earlier one)"""
+  for owner in ast.walk(fn):
+    for f in ('body', 'orelse', 'finalbody'):
+      block = getattr(owner, f, None)
+      if not (isinstance(block, list) and block and isinstance(
+          block[0], ast.stmt)):
+        continue
+      out = []
+      for s in block:
+        if isinstance(s, ast.Return) and s.value is not None:
+          vals = [s.value] if len(names) == 1 else (
+              list(s.value.elts) if isinstance(s.value, ast.Tuple) and len(
+                  s.value.elts) == len(names) else None)
+          if vals is not None and not all(
+              isinstance(v, ast.Name) and v.id == n
+              for v, n in zip(vals, names)):
+            ok = True
+            done = []
+            for v, n in zip(vals, names):
+              reads = {x.id for x in ast.walk(v) if isinstance(x, ast.Name)}
+              if reads & set(done):
+                ok = False
+              if not (isinstance(v, ast.Name) and v.id == n):
+                done.append(n)
+            if ok:
+              for v, n in zip(vals, names):
+                if isinstance(v, ast.Name) and v.id == n:
+                  continue
+                out.append(ast.copy_location(ast.Assign(
+                    targets=[ast.Name(id=n, ctx=ast.Store())], value=v), s))
+              rv = ast.Name(id=names[0], ctx=ast.Load()) if len(
+                  names) == 1 else ast.Tuple(
+                      elts=[ast.Name(id=n, ctx=ast.Load()) for n in names],
+                      ctx=ast.Load())
+              out.append(ast.copy_location(ast.Return(value=rv), s))
+              continue
+        out.append(s)
+      setattr(owner, f, out)
+  return fn
 
 
 # ---------------------------------------------------------------------------
@@ -267,9 +333,10 @@ class _Inliner(object):
         pre.append(ast.copy_location(ast.Assign(
             targets=[ast.Name(id=name, ctx=ast.Store())],
             value=copy.deepcopy(a)), call))
-    tname = target.id if isinstance(target, ast.Name) else None
+    tnames = {n.id for n in ast.walk(target) if isinstance(n, ast.Name)} \
+        if target is not None else set()
     for loc in assigned - set(bound):
-      if loc in caller_names and loc != tname:
+      if loc in caller_names and loc not in tnames:
         rename[loc] = loc + tag
     sub = _Subst(mapping, rename)
     body = [sub.visit(s) for s in body]
@@ -495,7 +562,41 @@ def substitute_new_locals(fn, known_locals):
           # function after the definition counts
           later |= _assigned_after(fn, s.lineno + 1) & free
           if free & later:
-            continue
+            # still safe: one use, in a simple statement (or the header of a
+            # compound one) of this block, nothing in between assigns a name
+            # the expression reads
+            if len(uses_all) != 1:
+              continue
+            j = None
+            for k in range(i + 1, len(block)):
+              if any(n is uses_all[0] for n in ast.walk(block[k])):
+                j = k
+                break
+            if j is None:
+              continue
+            between = set()
+            for st in block[i + 1:j]:
+              for n in ast.walk(st):
+                if isinstance(n, ast.Name) and isinstance(
+                    n.ctx, (ast.Store, ast.Del)):
+                  between.add(n.id)
+            st = block[j]
+            if isinstance(st, (ast.Assign, ast.AugAssign, ast.Return,
+                               ast.Expr, ast.Assert)):
+              hdr = [st.value] if hasattr(st, 'value') and st.value is not \
+                  None else [st]
+              if isinstance(st, ast.Assert):
+                hdr = [st.test]
+            elif isinstance(st, (ast.If, ast.While)):
+              hdr = [st.test]
+            elif isinstance(st, ast.For):
+              hdr = [st.iter]
+            else:
+              continue
+            if not any(n is uses_all[0] for h in hdr for n in ast.walk(h)):
+              continue
+            if free & between:
+              continue
           if len(uses_all) > 1 and isinstance(s.value, ast.Call) and not \
               _pure_call(s.value):
             continue
@@ -536,6 +637,43 @@ def _pure_call(c):
   return False
 
 
+def split_tuple_assignments(fn):
+  """a, b = (x, y)  ->  a = x; b = y  when no right-hand side reads a target
+  assigned before it; `x = x` is dropped"""
+  for owner in ast.walk(fn):
+    for f in ('body', 'orelse', 'finalbody'):
+      block = getattr(owner, f, None)
+      if not (isinstance(block, list) and block and isinstance(
+          block[0], ast.stmt)):
+        continue
+      out = []
+      for s in block:
+        if isinstance(s, ast.Assign) and len(s.targets) == 1 and isinstance(
+            s.targets[0], ast.Tuple) and isinstance(s.value, ast.Tuple) and \
+            len(s.targets[0].elts) == len(s.value.elts) and not any(
+                isinstance(e, ast.Starred)
+                for e in s.targets[0].elts + s.value.elts) and all(
+                    isinstance(t, ast.Name) for t in s.targets[0].elts):
+          ts = [t.id for t in s.targets[0].elts]
+          ok = True
+          for j, v in enumerate(s.value.elts):
+            reads = {n.id for n in ast.walk(v) if isinstance(n, ast.Name)}
+            if reads & set(ts[:j]):
+              ok = False
+          if ok:
+            for t, v in zip(s.targets[0].elts, s.value.elts):
+              if isinstance(v, ast.Name) and v.id == t.id:
+                continue
+              out.append(ast.copy_location(ast.Assign(targets=[t], value=v),
+                                           s))
+            continue
+        out.append(s)
+      if not out:
+        out = [ast.copy_location(ast.Pass(), block[0])]
+      setattr(owner, f, out)
+  return fn
+
+
 # ---------------------------------------------------------------------------
 def normalise_module(modname, tree):
   inv = inventory().get(modname)
@@ -544,6 +682,12 @@ def normalise_module(modname, tree):
   tree = _Inliner(tree, set(inv)).run()
   for q, (fn, owner, cls) in function_table(tree).items():
     if q in inv:
-      substitute_new_locals(fn, set(inv[q]))
+      known = set(inv[q]['locals'])
+      before = local_names(fn)
+      if before - known:
+        split_tuple_assignments(fn)
+        substitute_new_locals(fn, known)
+      if inv[q].get('returns'):
+        name_returns(fn, inv[q]['returns'])
   ast.fix_missing_locations(tree)
   return tree
